@@ -168,6 +168,10 @@ func ReportElement(dbStream io.Reader, rec ReportElementConfig) error {
 			}
 		}
 	}
+	// equal amounts are listed by name, not in map order
+	sort.Slice(list, func(i, j int) bool {
+		return list[i].Name < list[j].Name
+	})
 	if rec.Descending {
 		sort.SliceStable(list, func(i, j int) bool {
 			return list[i].Value > list[j].Value
